@@ -416,6 +416,7 @@ def map_once(ctx: Ctx) -> None:
             nm = n.targets[0].value.id
         if nm and cfg.has(n) and cfg.in_loop(cfg.node_of(n), m.fin_loop.id):
             mutated.setdefault(nm, []).append(cfg.node_of(n))
+    guards: set[str] = set()
     for y in m.yields:
         yn = cfg.node_of(y)
         ok = False
@@ -447,6 +448,29 @@ def map_once(ctx: Ctx) -> None:
             "emission must be guarded by a delivered/superseded check on a container updated when a result is emitted"
             + (f" (uses `{why}`)" if ok else f" — the only guard is the exception test; when an original and its backup finish in the same wait round both are yielded (and `{m.twin}` is already cleared when the twin is visited)"),
             sel="once:yield",
+        )
+        if ok:
+            guards.add(why)
+    # a superseded twin is not *handled* at all: its (stale) failure must not be raised either —
+    # the same membership check guards every raise of the finished loop
+    for r in cfg.stmts(ast.Raise):
+        if not cfg.in_loop(r.id, m.fin_loop.id) or not guards:
+            continue
+        ok = False
+        for t, pol, b in cfg.branch_conditions(r.id):
+            if not cfg.in_loop(b, m.fin_loop.id):
+                continue
+            for fact, fp in conjuncts(t, pol):
+                if isinstance(fact, ast.Compare) and isinstance(fact.ops[0], (ast.In, ast.NotIn)) and isinstance(fact.left, ast.Name) and fact.left.id in m.task_names and isinstance(fact.comparators[0], ast.Name) and fact.comparators[0].id in guards:
+                    if isinstance(fact.ops[0], ast.NotIn) == fp:
+                        ok = True
+        ctx.ob(
+            d,
+            r.stmt,
+            ok,
+            f"a failure is raised only for a task that was not superseded (`task not in {sorted(guards)[0]}` holds at the raise)"
+            + ("" if ok else " — the superseded check comes after the exception test: when a task succeeds and its twin fails in the same wait round, the twin's failure is raised although the input has been delivered"),
+            sel="once:raise",
         )
 
 
